@@ -15,21 +15,33 @@ use std::sync::{Arc, Mutex};
 use std::time::Duration;
 use stretto::verif::{clock, counters, sched, seq, ticker};
 
-/// (yield point, who reaches it)
-pub const PROC_POINTS: [&str; 11] = [
-    "proc:insert_arm",
-    "item:new:after_policy_add",
-    "item:new:after_store_insert",
-    "item:new:before_victim_remove",
-    "item:update:before_policy_update",
-    "item:delete:after_policy_remove",
-    "cleanup:after_expiry_check",
-    "proc:clear_arm",
-    "clear:after_drain",
-    "clear:after_policy_clear",
-    "clear:after_store_clear",
+/// (yield point, role of the thread to park: 0 = background processor, 2 = the triggering client, trigger)
+pub const POINTS: [(&str, u8, &str); 24] = [
+    ("proc:insert_arm", 0, "insert-new"),
+    ("policy:add:enter", 0, "insert-new"),
+    ("item:new:after_policy_add", 0, "insert-new"),
+    ("store:insert:enter", 0, "insert-new"),
+    ("item:new:after_store_insert", 0, "insert-new"),
+    ("item:new:before_victim_remove", 0, "insert-new"),
+    ("item:update:before_policy_update", 0, "update"),
+    ("policy:update:enter", 0, "update"),
+    ("policy:remove:enter", 0, "remove"),
+    ("item:delete:after_policy_remove", 0, "remove"),
+    ("store:remove:enter", 0, "remove"),
+    ("cleanup:after_expiry_check", 0, "tick"),
+    ("proc:clear_arm", 0, "clear"),
+    ("clear:after_drain", 0, "clear"),
+    ("clear:after_policy_clear", 0, "clear"),
+    ("clear:after_store_clear", 0, "clear"),
+    ("store:remove:enter", 2, "remove"),
+    ("remove:after_store_remove", 2, "remove"),
+    ("store:update:enter", 2, "update"),
+    ("update:after_store_update", 2, "update"),
+    ("store:update:enter", 2, "insert-new"),
+    ("insert:before_send", 2, "insert-new"),
+    ("wait:before_send", 2, "wait"),
+    ("clear:after_signal", 2, "clear"),
 ];
-pub const CLIENT_POINTS: [&str; 5] = ["remove:after_store_remove", "update:after_store_update", "insert:before_send", "wait:before_send", "clear:after_signal"];
 pub const RACERS: [&str; 10] = ["clear", "remove-same", "update-same", "insert-other", "get_mut-write", "tick", "wait", "get-same", "remove-other", "if-present-pending"];
 
 struct Rec(Mutex<Vec<OpRec>>);
@@ -107,7 +119,7 @@ pub struct GatedOutcome {
     pub immediacy: Vec<String>,
 }
 
-fn scenario(flavor: Flavor, point: &'static str, racer: &'static str, seed: u64) -> GatedOutcome {
+fn scenario(flavor: Flavor, point: &'static str, role: u8, trig: &'static str, racer: &'static str, seed: u64) -> GatedOutcome {
     let mut rng = Rng::new(seed);
     let keys = 6u64;
     let tight = matches!(point, "item:new:before_victim_remove") || rng.chance(1, 3);
@@ -140,24 +152,24 @@ fn scenario(flavor: Flavor, point: &'static str, racer: &'static str, seed: u64)
         do_get(d.as_ref(), &rec, 1, k);
     }
     let gate = sched::Gate::new();
-    sched::arm_gate(point, gate.clone());
+    sched::arm_gate_for_role(point, role, gate.clone());
     // ---- trigger: the activity that runs into the point (thread A)
     let same = 2u64; // the key both sides work on
-    let trigger: Box<dyn FnOnce(Arc<dyn Drv>, Arc<Rec>, Arc<AtomicU64>) + Send> = match point {
-        "item:new:after_policy_add" | "item:new:after_store_insert" | "item:new:before_victim_remove" | "proc:insert_arm" | "insert:before_send" => Box::new(move |d, rec, ids| {
+    let trigger: Box<dyn FnOnce(Arc<dyn Drv>, Arc<Rec>, Arc<AtomicU64>) + Send> = match trig {
+        "insert-new" => Box::new(move |d, rec, ids| {
             do_insert(d.as_ref(), &rec, 2, &ids, 5, 1, 0);
         }),
-        "item:update:before_policy_update" | "update:after_store_update" => Box::new(move |d, rec, ids| {
+        "update" => Box::new(move |d, rec, ids| {
             do_insert(d.as_ref(), &rec, 2, &ids, same, 1, 0);
         }),
-        "item:delete:after_policy_remove" | "remove:after_store_remove" => Box::new(move |d, rec, ids| {
+        "remove" => Box::new(move |d, rec, ids| {
             do_simple(d.as_ref(), &rec, 2, OP_REMOVE, same, &ids);
         }),
-        "cleanup:after_expiry_check" => Box::new(move |_d, _rec, _ids| {
+        "tick" => Box::new(move |_d, _rec, _ids| {
             clock::advance(Duration::from_secs(3));
             ticker::tick();
         }),
-        "wait:before_send" => Box::new(move |d, rec, ids| {
+        "wait" => Box::new(move |d, rec, ids| {
             do_simple(d.as_ref(), &rec, 2, OP_WAIT, 0, &ids);
         }),
         _ => Box::new(move |d, rec, ids| {
@@ -173,6 +185,10 @@ fn scenario(flavor: Flavor, point: &'static str, racer: &'static str, seed: u64)
     let fired = gate.wait_arrival(Duration::from_secs(3));
     let mut racer_blocked = false;
     if fired {
+        if role != 0 {
+            // a client is parked: give the processor the time to apply what that client has already queued
+            std::thread::sleep(Duration::from_millis(2));
+        }
         // ---- the racing operation (thread B), while A / the processor is parked inside the window
         let (d3, rec3, ids3) = (d.clone_handle(), rec.clone(), ids.clone());
         let done = Arc::new(AtomicU64::new(0));
@@ -245,7 +261,7 @@ fn scenario(flavor: Flavor, point: &'static str, racer: &'static str, seed: u64)
     let _ = ta.join();
     let ticks_sent = counters::get(&counters::TICKS_STARTED).max(counters::get(&counters::TICKS_DONE));
     // ticks fed by the scenario itself
-    let fed = (point == "cleanup:after_expiry_check") as u64 + (fired && racer == "tick") as u64;
+    let fed = (trig == "tick") as u64 + (fired && racer == "tick") as u64;
     let _ = ticks_sent;
     let ops = std::mem::take(&mut *rec.0.lock().unwrap());
     let hist = finish(flavor, &h, d, ops, fed, (0, 0, 0, 0, Vec::new()));
@@ -255,13 +271,11 @@ fn scenario(flavor: Flavor, point: &'static str, racer: &'static str, seed: u64)
 pub fn run(ctx: &Ctx, rng: Rng, rep: &mut Report) {
     let flavors = flavors_for(ctx, &[Flavor::Sync, Flavor::Async(Exec::TokioMt)], &[Flavor::Sync, Flavor::Async(Exec::TokioMt), Flavor::Async(Exec::AsyncStd), Flavor::Async(Exec::ThreadPerTask)]);
     let flavors: Vec<Flavor> = flavors.into_iter().filter(|f| f.gates_ok()).collect();
-    let mut points: Vec<&'static str> = PROC_POINTS.to_vec();
-    points.extend(CLIENT_POINTS.iter());
     let reps = ctx.n(ctx.quick_n.unwrap_or(1), ctx.thorough_n.unwrap_or(6));
     let watchdog = Duration::from_secs(120);
     let mut idx = 0u64;
     'outer: for rep_no in 0..reps {
-        for point in points.iter() {
+        for (point, role, trig) in POINTS.iter() {
             for racer in RACERS.iter() {
                 for flavor in flavors.iter() {
                     idx += 1;
@@ -273,25 +287,25 @@ pub fn run(ctx: &Ctx, rng: Rng, rep: &mut Report) {
                         continue;
                     }
                     let seed = rng.derive(idx).next() >> 24;
-                    let (p, r, f) = (*point, *racer, *flavor);
-                    let sup = supervised("gated", watchdog, move || scenario(f, p, r, seed));
-                    let ctxj = json!({"point": p, "racer": r, "flavor": f.name(), "seed": seed});
+                    let (p, r, f, ro, tg) = (*point, *racer, *flavor, *role, *trig);
+                    let sup = supervised("gated", watchdog, move || scenario(f, p, ro, tg, r, seed));
+                    let ctxj = json!({"point": p, "parked": if ro == 0 { "processor" } else { "client" }, "trigger": tg, "racer": r, "flavor": f.name(), "seed": seed});
                     let mut stop = false;
                     match sup {
                         Sup::Done(o) => {
                             rep.count("ga_scenarios");
                             if o.fired {
                                 rep.count("ga_gates_fired");
-                                rep.count(&format!("ga_fired_{p}"));
+                                rep.count(&format!("ga_fired_{p}@{}", if ro == 0 { "processor" } else { "client" }));
                             } else {
                                 rep.count("ga_gates_not_reached");
-                                rep.count(&format!("ga_not_reached_{p}"));
+                                rep.count(&format!("ga_not_reached_{p}@{}", if ro == 0 { "processor" } else { "client" }));
                             }
                             if o.racer_blocked {
                                 rep.count("ga_racer_waited_for_parked_thread");
                             }
                             for m in o.immediacy.iter() {
-                                rep.violate("C02", if m.contains("remove") { "gated/remove-not-immediate" } else { "gated/update-not-immediate" }, format!("with {} parked at {p}: {m}", if p.starts_with("proc") || p.starts_with("item") || p.starts_with("clean") || p.starts_with("clear:after_") && p != "clear:after_signal" { "the processor" } else { "a client" }), json!({"scenario": ctxj, "operations": o.hist.ops.iter().map(|x| format!("{:?}", (x.call, x.ret, x.tid, x.op, x.key, x.id, x.ok, x.hit, x.seen_id))).collect::<Vec<_>>()}));
+                                rep.violate("C02", if m.contains("remove") { "gated/remove-not-immediate" } else { "gated/update-not-immediate" }, format!("with {} parked at {p}: {m}", if ro == 0 { "the processor" } else { "a client" }), json!({"scenario": ctxj, "operations": o.hist.ops.iter().map(|x| format!("{:?}", (x.call, x.ret, x.tid, x.op, x.key, x.id, x.ok, x.hit, x.seen_id))).collect::<Vec<_>>()}));
                             }
                             let mut local = Report::default();
                             check_history(&o.hist, &mut local);
@@ -306,8 +320,8 @@ pub fn run(ctx: &Ctx, rng: Rng, rep: &mut Report) {
                                 local.violation_counts.insert(format!("{pp}|gated/{ss}"), n);
                             }
                             rep.merge(local);
-                            rep.fingerprints.insert(hash_of(&(p, r, f.name(), o.fired, o.racer_blocked)));
-                            rep.case(o.fired, hash_of(&(p, r, f.name())));
+                            rep.fingerprints.insert(hash_of(&(p, ro, tg, r, f.name(), o.fired, o.racer_blocked)));
+                            rep.case(o.fired, hash_of(&(p, ro, tg, r, f.name())));
                             if rep.samples.len() < 3 && o.fired {
                                 rep.sample(json!({"scenario": ctxj, "racer_waited": o.racer_blocked, "operations": o.hist.ops.iter().take(20).map(|x| format!("[{}..{}] t{} op{} k{} ok={} hit={}", x.call, x.ret, x.tid, x.op, x.key, x.ok, x.hit)).collect::<Vec<_>>()}));
                             }
